@@ -26,10 +26,12 @@ REQUIRED = [
     "store_fault_at_any_put",
     "fact_codec", "leaf_key_roundtrip", "clock_key_roundtrip", "short_value_panics", "hash_list_roundtrip", "index_clock_bytes_refines",
     "leaf_codec_roundtrip", "leaf_codec_rejects", "load_bytes_refines", "load_bytes_error_unchanged", "persist_keeps_sorted",
-    "load_state_through_bytes",
+    "load_state_through_bytes", "clock_keys_order", "clock_shelf_cursor_order", "leaf_keys_not_ordered", "metadata_getters_refine",
+    "metadata_getters_fallback", "tree_inv_delete", "delete_undoes_insert", "xor_iblt_delete_lawful", "drop_leaves_spec",
+    "drop_leaves_observables", "fact_tree_api", "new_iblt_buckets", "persist_full_eq_persist",
 ]
 
-STATELESS = ("tcx", "tci", "tcm", "tca", "ckey", "kclk", "phl")
+STATELESS = ("tcx", "tci", "tcm", "tca", "tnb", "ckey", "kclk", "phl", "mget")
 
 
 def codec_oracle(op, line):
@@ -54,6 +56,20 @@ def codec_oracle(op, line):
         hs = [v[i * 32:(i + 1) * 32].hex() for i in range(len(v) // 32)]
         want = f"phl n={len(hs)} [{','.join(hs)}] app={(v + hx('ref')).hex()}"
         return None if line == want else f"want {want[:120]}"
+    if o == "tnb":
+        n = max(op.get("nb", 0), 6)
+        return None if line == f"tnb {n} {n}" else f"want tnb {n} {n}"
+    if o == "mget":
+        mode, v = op.get("mode"), hx("val")
+        if mode in ("notfound", "wrapped-notfound"):
+            want = "mget lc=0 cnt=0 head=" + "00" * 32
+        elif mode == "failed":
+            want = "mget lc=0 cnt=0 head=err"
+        else:
+            lc = str(int.from_bytes(v[:4], "big")) if len(v) >= 4 else "short"
+            cnt = str(int.from_bytes(v[:8], "big")) if len(v) >= 8 else "short"
+            want = f"mget lc={lc} cnt={cnt} head={(v[:32] + bytes(32))[:32].hex()}"
+        return None if line == want else f"want {want}"
     if o == "tcx":
         v = hx("b")
         want = "tcx ok:" + v.hex() if len(v) == 32 else "tcx err:invalid data length"
@@ -293,7 +309,7 @@ def run(ctx):
     tr = dist.get("tree", {})
     ctx.cov["distinct_nontrivial"] = sum(v for k, v in st.items() if k in ("add:ok", "add:err:commit-failed", "add:err:payload-hash-mismatch",
                                          "add:err:root-exists", "add:err:missing-prev", "add:err:bad-clock", "restart", "check", "corruptDisk", "corruptMem", "batch")) + \
-        sum(v for k, v in tr.items() if k in ("tins", "tdel", "tload", "trepl"))
+        sum(v for k, v in tr.items() if k in ("tins", "tdel", "tload", "trepl", "tlb", "tdrop"))
     ctx.cov["traces_validated_against_impl"] = tot["lines"] - tot["bad"]
     ctx.cov["rule"] = ("tree level: random Insert/Delete/Updates+persist/Load/Replace sequences on trees of leaf size 2, 4 and 512 (XOR) and IBLTs of 6, 16 and 1024 "
                        "buckets, clock modes contiguous / page edges +-1 / tree growth 1->2->4->8->16 pages / random; after every op Root and ZeroTo(c) for all page "
